@@ -436,6 +436,13 @@ fn attempt_exactly(
         || parsed.day.is_some()
         || parsed.ordinal.is_some()
         || parsed.isoweek.is_some();
+    // chrono keeps second 60 as a leap second, which its arithmetic
+    // then treats specially: (d + 1 s) - d is not 1 s for such a d. Read
+    // it as the second after :59 instead.
+    let leap = parsed.second == Some(60);
+    if leap {
+        parsed.second = Some(59);
+    }
     let time = parsed.to_naive_time();
     let date = parsed.to_naive_date();
     if has_time && time.is_err() {
@@ -447,7 +454,7 @@ fn attempt_exactly(
     if parsed.offset.is_some() && parsed.to_fixed_offset().is_err() {
         return Err(("Offset is out of range".to_string(), count));
     }
-    if let Some(tz) = tz {
+    let result = if let Some(tz) = tz {
         match (time, date) {
             (Ok(time), Ok(date)) => tz
                 .from_local_datetime(&date.and_time(time))
@@ -520,7 +527,19 @@ fn attempt_exactly(
                 .map(GenericDateTime::Fixed),
             _ => Err(("Failed to construct a useful datetime".to_string(), count)),
         }
+    };
+    let result = result?;
+    if !leap {
+        return Ok(result);
     }
+    let second = Duration::seconds(1);
+    match result {
+        GenericDateTime::Fixed(date) => date.checked_add_signed(second).map(GenericDateTime::Fixed),
+        GenericDateTime::Timezone(date) => date
+            .checked_add_signed(second)
+            .map(GenericDateTime::Timezone),
+    }
+    .ok_or_else(|| ("Date is out of range or incomplete".to_string(), count))
 }
 
 pub fn try_decode(date: &[DateToken], context: &Context) -> Result<GenericDateTime, String> {
